@@ -350,6 +350,9 @@ pub fn salt_variants(c: &mut Ctx, b: &Budget) {
         let e = base_envelope(c, 2);
         let ctx = shape(&e);
         let size = bytes_of(&e).len();
+        // the range `add_salt_using` asks for, read off the real door at both ends and compared with the model's (size of the model's own
+        // encoding, the two products rounded as doubles)
+        { let r = import(c, &e); c.obs(&format!("saltrange {}", r)); }
         agree!(c, "add_salt_using", { let mut r = make_fake_random_number_generator(); e.add_salt_using(&mut r) }, { let mut r = make_fake_random_number_generator(); e.add_salt_instance(Salt::new_for_size_using(size, &mut r)) }, ctx);
         for n in [8usize, 9, 16, 33] {
             agree!(c, "add_salt_with_len_using", { let mut r = make_fake_random_number_generator(); e.add_salt_with_len_using(n, &mut r).unwrap() }, { let mut r = make_fake_random_number_generator(); e.add_salt_instance(Salt::new_with_len_using(n, &mut r).unwrap()) }, ctx);
@@ -371,6 +374,7 @@ pub fn salt_variants(c: &mut Ctx, b: &Budget) {
                 let mut built = None;
                 for _ in 0..12 { let cand = Envelope::new(CBOR::to_byte_string(vec![0x41u8; n])); let sz = bytes_of(&cand).len(); if sz == target { built = Some(cand); break; } if sz > target { n -= sz - target; } else { n += target - sz; } }
                 if let Some(x) = built {
+                    { let r = import(c, &x); c.obs(&format!("saltrange {}", r)); }
                     agree!(c, "add_salt_using", { let mut r = make_fake_random_number_generator(); x.add_salt_using(&mut r) }, { let mut r = make_fake_random_number_generator(); x.add_salt_instance(Salt::new_for_size_using(target, &mut r)) }, format!("size {}", target));
                     // the smallest and largest salts a sequence of generator states yields stay inside the documented range
                     let lo = 8usize.max((target as f64 * 0.05).ceil() as usize); let hi = (lo + 8).max((target as f64 * 0.25).ceil() as usize);
